@@ -29,6 +29,7 @@ type batchLine struct {
 	Solo       map[string]string // relative path -> sha256 of the solo run (filled by soloRuns)
 	SoloErr    string            // error text of the solo run's summary ("" = success)
 	SoloStderr string            // stderr of the solo run (tail)
+	SoloHow    string            // command line and batch-file shape of the solo run
 }
 
 func (l *batchLine) Text() string { return strings.Join(l.Args, " ") }
@@ -44,8 +45,11 @@ type batchOutcome struct {
 	HeaderSeen     bool              // "Error Summary:" printed (it is, as soon as one result was collected)
 	ErrIDs         []int             // ids listed in the summary, in printed order
 	ErrMsg         map[int]string
-	Count          int  // the number printed after "Number of errors:"
-	Finished       bool // "Execution time:" printed (main returned normally)
+	Count          int      // the number printed after "Number of errors:"
+	Finished       bool     // "Execution time:" printed (main returned normally)
+	Cmd            []string // the command line
+	BatchText      string   // the batch file as written
+	BatchShape     string   // its shape in words
 }
 
 var logStampRe = regexp.MustCompile(`^\d{4}/\d\d/\d\d \d\d:\d\d:\d\d `)
@@ -143,8 +147,30 @@ func cleanResults(root string) {
 
 var batchSeq int64
 
-// runBatch writes the lines to a batch file in the root and runs the binary on it.
+// runBatch writes the lines to a batch file in the root and runs the binary on it. The shape of the
+// file (separators, line ends, empty lines, final newline) and of the command line (option order,
+// -workingdir given or implied by the batch file's folder, relative batch path, -logoutput) is drawn per
+// batch from the check's seed: kern_dispatch_cmdline.go.
 func runBatch(bin, root string, lines []*batchLine, conc int, gomaxprocs int, extraEnv []string, timeout time.Duration, tag string, extraArgs ...string) *batchOutcome {
+	texts := make([]string, 0, len(lines)+3)
+	for _, l := range lines {
+		texts = append(texts, l.Text())
+	}
+	r := styleRng(append(texts, tag, strconv.Itoa(conc), strings.Join(extraArgs, " "))...)
+	content, shape := renderBatchFile(r, lines)
+	bf := filepath.Join(root, "batch-"+tag+".txt")
+	os.WriteFile(bf, []byte(content), 0o644)
+	defer os.Remove(bf)
+	o := execOutcome(bin, root, batchCommand(r, root, bf, conc, extraArgs), gomaxprocs, extraEnv, timeout)
+	o.BatchText, o.BatchShape = content, shape
+	return o
+}
+
+// runBatchCanonical is the reference form of a run — the batch file with one blank between the tokens, LF line
+// ends, a final newline and no empty line; `hermes2go -module batch -batch <file> -workingdir <root>
+// -concurrent 1 [extra arguments]`. The solo baseline of every line is taken in this form, so that a batch in
+// any other shape (tabs, several blanks, CRLF, another option order) is compared with what the line means.
+func runBatchCanonical(bin, root string, lines []*batchLine, timeout time.Duration, tag string, extraArgs ...string) *batchOutcome {
 	var sb strings.Builder
 	for _, l := range lines {
 		sb.WriteString(l.Text())
@@ -153,7 +179,14 @@ func runBatch(bin, root string, lines []*batchLine, conc int, gomaxprocs int, ex
 	bf := filepath.Join(root, "batch-"+tag+".txt")
 	os.WriteFile(bf, []byte(sb.String()), 0o644)
 	defer os.Remove(bf)
-	cmd := exec.Command(bin, append([]string{"-module", "batch", "-batch", bf, "-workingdir", root, "-concurrent", strconv.Itoa(conc)}, extraArgs...)...)
+	o := execOutcome(bin, root, append([]string{"-module", "batch", "-batch", bf, "-workingdir", root, "-concurrent", "1"}, extraArgs...), 0, nil, timeout)
+	o.BatchText, o.BatchShape = sb.String(), "canonical"
+	return o
+}
+
+// execOutcome starts the binary in the root with the given arguments and collects everything observable.
+func execOutcome(bin, root string, args []string, gomaxprocs int, extraEnv []string, timeout time.Duration) *batchOutcome {
+	cmd := exec.Command(bin, args...)
 	cmd.Dir = root
 	env := []string{}
 	for _, e := range os.Environ() {
@@ -170,7 +203,7 @@ func runBatch(bin, root string, lines []*batchLine, conc int, gomaxprocs int, ex
 	var so, se bytes.Buffer
 	cmd.Stdout = &so
 	cmd.Stderr = &se
-	o := &batchOutcome{}
+	o := &batchOutcome{Cmd: append([]string{"hermes2go"}, args...)}
 	t0 := time.Now()
 	if err := cmd.Start(); err != nil {
 		o.Err = err
@@ -194,13 +227,14 @@ func runBatch(bin, root string, lines []*batchLine, conc int, gomaxprocs int, ex
 	return o
 }
 
-// soloRuns executes every line alone (its own process, concurrency 1, cold cache) in the given
-// root and records the files it writes and its summary. Lines must own disjoint files.
+// soloRuns executes every line alone (its own process, concurrency 1, cold cache, canonical form of the
+// batch file and of the command line) in the given root and records the files it writes and its summary.
+// Lines must own disjoint files.
 func soloRuns(bin, root string, lines []*batchLine, timeout time.Duration) {
 	cleanResults(root)
 	seen := map[string]bool{}
 	for i, l := range lines {
-		o := runBatch(bin, root, []*batchLine{l}, 1, 0, nil, timeout, fmt.Sprintf("solo%d", i))
+		o := runBatchCanonical(bin, root, []*batchLine{l}, timeout, fmt.Sprintf("solo%d", i))
 		l.Solo = map[string]string{}
 		for f, h := range o.Files {
 			if !seen[f] {
@@ -210,6 +244,7 @@ func soloRuns(bin, root string, lines []*batchLine, timeout time.Duration) {
 		}
 		l.SoloErr = ""
 		l.SoloStderr = tail(o.Stderr, 4000)
+		l.SoloHow = strings.Join(o.Cmd, " ") + " | batch file: " + o.BatchShape + " " + strconv.Quote(o.BatchText)
 		switch {
 		case o.TimedOut:
 			l.SoloErr = "TIMEOUT"
@@ -301,6 +336,18 @@ func genShortProject(r *vh.Rng, name string) *proj.Project {
 		p.SetGroundwaterSeries(r, 4, 18, r.Range(4, 10))
 	case 1:
 		p.SetGroundwaterPolygon(r.Range(3, 8), r.Range(9, 20), r.Range(0, 360))
+	}
+	// the result files of these projects are written by the real file writer of the binary: every style and
+	// extension it has (path.go:108-134; an empty extension is resolved by the style: csv / RES)
+	switch r.Intn(8) {
+	case 0:
+		p.Cfg["ResultFileFormat"], p.Cfg["ResultFileExt"] = "0", "\"RES\""
+	case 1:
+		p.Cfg["ResultFileFormat"], p.Cfg["ResultFileExt"] = "0", "\"\""
+	case 2:
+		p.Cfg["ResultFileExt"] = "\"out\""
+	case 3:
+		p.Cfg["ResultFileExt"] = "\"\""
 	}
 	return p
 }
